@@ -53,6 +53,11 @@ impl<T> Receiver<T> {
     pub fn drain(&self) -> Drain<T> {
         Drain { receiver: self }
     }
+
+    #[cfg(feature = "crux_verif")]
+    pub(crate) fn verif_len(&self) -> usize {
+        self.inner.len()
+    }
 }
 
 pub struct Drain<'a, T> {
